@@ -17,11 +17,11 @@ theorem shapeWs_map {α : Type} (f : α → JV) : ∀ xs : List α, (∀ x ∈ x
     simp only [List.map_cons, shapeWs, Bool.and_eq_true]
     exact ⟨h x (by simp), shapeWs_map f xs fun y hy => h y (by simp [hy])⟩
 
-theorem noFloats_map {α : Type} (f : α → JV) : ∀ xs : List α, (∀ x ∈ xs, Spec.WF.noFloat (f x) = true) → Spec.WF.noFloats (xs.map f) = true
+theorem finFloats_map {α : Type} (f : α → JV) : ∀ xs : List α, (∀ x ∈ xs, Spec.WF.finiteFloats (f x) = true) → Spec.WF.finiteFloatss (xs.map f) = true
   | [], _ => rfl
   | x :: xs, h => by
-    simp only [List.map_cons, Spec.WF.noFloats, Bool.and_eq_true]
-    exact ⟨h x (by simp), noFloats_map f xs fun y hy => h y (by simp [hy])⟩
+    simp only [List.map_cons, Spec.WF.finiteFloatss, Bool.and_eq_true]
+    exact ⟨h x (by simp), finFloats_map f xs fun y hy => h y (by simp [hy])⟩
 
 theorem shapeWm_map {α : Type} (k : α → Bytes) (f : α → JV) : ∀ xs : List α,
     (∀ x ∈ xs, Spec.Utf8.validUtf8 (k x) = true ∧ shapeW (f x) = true) → shapeWm (xs.map fun x => (k x, f x)) = true
@@ -30,12 +30,12 @@ theorem shapeWm_map {α : Type} (k : α → Bytes) (f : α → JV) : ∀ xs : Li
     simp only [List.map_cons, shapeWm, Bool.and_eq_true]
     exact ⟨⟨(h x (by simp)).1, (h x (by simp)).2⟩, shapeWm_map k f xs fun y hy => h y (by simp [hy])⟩
 
-theorem noFloatm_map {α : Type} (k : α → Bytes) (f : α → JV) : ∀ xs : List α,
-    (∀ x ∈ xs, Spec.WF.noFloat (f x) = true) → Spec.WF.noFloatm (xs.map fun x => (k x, f x)) = true
+theorem finFloatm_map {α : Type} (k : α → Bytes) (f : α → JV) : ∀ xs : List α,
+    (∀ x ∈ xs, Spec.WF.finiteFloats (f x) = true) → Spec.WF.finiteFloatsm (xs.map fun x => (k x, f x)) = true
   | [], _ => rfl
   | x :: xs, h => by
-    simp only [List.map_cons, Spec.WF.noFloatm, Bool.and_eq_true]
-    exact ⟨h x (by simp), noFloatm_map k f xs fun y hy => h y (by simp [hy])⟩
+    simp only [List.map_cons, Spec.WF.finiteFloatsm, Bool.and_eq_true]
+    exact ⟨h x (by simp), finFloatm_map k f xs fun y hy => h y (by simp [hy])⟩
 
 theorem validUtf8_ascii : ∀ bs : Bytes, (∀ c ∈ bs, c < 0x80) → Spec.Utf8.validUtf8 bs = true
   | [], _ => rfl
@@ -90,41 +90,41 @@ theorem validUtf8_keyText (k : KeyKind) (a : TVal) (hk : keyFrag k = true) (h : 
       exact hall _ this
     | _ => simp [wfKey] at h
 
-theorem vok_intJV (n : Int) : shapeW (intJV n) = true ∧ Spec.WF.noFloat (intJV n) = true := by
+theorem vok_intJV (n : Int) : shapeW (intJV n) = true ∧ Spec.WF.finiteFloats (intJV n) = true := by
   unfold intJV
-  split <;> simp [shapeW, wfNumW, Spec.WF.noFloat, *]
+  split <;> simp [shapeW, wfNumW, Spec.WF.finiteFloats, *]
 
 theorem vok_bytes (b : Bytes) : shapeWs (b.map fun x => JV.num (.pos x.toNat)) = true ∧
-    Spec.WF.noFloats (b.map fun x => JV.num (.pos x.toNat)) = true :=
-  ⟨shapeWs_map _ b fun _ _ => rfl, noFloats_map _ b fun _ _ => rfl⟩
+    Spec.WF.finiteFloatss (b.map fun x => JV.num (.pos x.toNat)) = true :=
+  ⟨shapeWs_map _ b fun _ _ => rfl, finFloats_map _ b fun _ _ => rfl⟩
 
-def VOKb (v : JV) : Prop := shapeW v = true ∧ Spec.WF.noFloat v = true
+def VOKb (v : JV) : Prop := shapeW v = true ∧ Spec.WF.finiteFloats v = true
 
 mutual
 theorem vok_valueOf : ∀ (s : Schema) (v : TVal), fragP false s = true → wfTV s v = true → VOKb (valueOf s v)
-  | .bool, v, _, h => by cases v <;> simp_all [wfTV, valueOf, VOKb, shapeW, Spec.WF.noFloat]
+  | .bool, v, _, h => by cases v <;> simp_all [wfTV, valueOf, VOKb, shapeW, Spec.WF.finiteFloats]
   | .int w, v, _, h => by
     cases v <;> simp_all [wfTV, valueOf, VOKb]
     exact vok_intJV _
-  | .f64, v, hf, _ => by simp [fragP] at hf
+  | .f64, v, _, h => by cases v <;> simp_all [wfTV, valueOf, VOKb, shapeW, wfNumW, Spec.WF.finiteFloats]
   | .f32, v, hf, _ => by simp [fragP] at hf
   | .char, v, _, h => by
-    cases v <;> simp_all [wfTV, valueOf, VOKb, shapeW, Spec.WF.noFloat]
+    cases v <;> simp_all [wfTV, valueOf, VOKb, shapeW, Spec.WF.finiteFloats]
     exact validUtf8_scalar _ h
-  | .string, v, _, h => by cases v <;> simp_all [wfTV, valueOf, VOKb, shapeW, Spec.WF.noFloat]
+  | .string, v, _, h => by cases v <;> simp_all [wfTV, valueOf, VOKb, shapeW, Spec.WF.finiteFloats]
   | .bytes, v, _, h => by
-    cases v <;> simp_all [wfTV, valueOf, VOKb, shapeW, Spec.WF.noFloat]
+    cases v <;> simp_all [wfTV, valueOf, VOKb, shapeW, Spec.WF.finiteFloats]
     exact vok_bytes _
   | .option s, v, hf, h => by
     cases v with
-    | none => simp [valueOf, VOKb, shapeW, Spec.WF.noFloat]
+    | none => simp [valueOf, VOKb, shapeW, Spec.WF.finiteFloats]
     | some x =>
       simp only [wfTV, Bool.and_eq_true] at h
       simp only [valueOf]
       exact vok_valueOf s x (by simpa [fragP] using hf) h.1
     | _ => simp [wfTV] at h
-  | .unit, v, _, _ => by simp [valueOf, VOKb, shapeW, Spec.WF.noFloat]
-  | .unitStruct, v, _, _ => by simp [valueOf, VOKb, shapeW, Spec.WF.noFloat]
+  | .unit, v, _, _ => by simp [valueOf, VOKb, shapeW, Spec.WF.finiteFloats]
+  | .unitStruct, v, _, _ => by simp [valueOf, VOKb, shapeW, Spec.WF.finiteFloats]
   | .newtype s, v, hf, h => by
     simp only [wfTV] at h
     simp only [valueOf]
@@ -134,14 +134,14 @@ theorem vok_valueOf : ∀ (s : Schema) (v : TVal), fragP false s = true → wfTV
     | seq xs =>
       simp only [wfTV, List.all_eq_true] at h
       have ih := fun x hx => vok_valueOf s x (by simpa [fragP] using hf) (h x hx)
-      simp only [valueOf, VOKb, shapeW, Spec.WF.noFloat]
-      exact ⟨shapeWs_map _ xs fun x hx => (ih x hx).1, noFloats_map _ xs fun x hx => (ih x hx).2⟩
+      simp only [valueOf, VOKb, shapeW, Spec.WF.finiteFloats]
+      exact ⟨shapeWs_map _ xs fun x hx => (ih x hx).1, finFloats_map _ xs fun x hx => (ih x hx).2⟩
     | _ => simp [wfTV] at h
   | .tuple ss, v, hf, h => by
     cases v with
     | seq xs =>
       simp only [wfTV] at h
-      simp only [valueOf, VOKb, shapeW, Spec.WF.noFloat]
+      simp only [valueOf, VOKb, shapeW, Spec.WF.finiteFloats]
       exact vok_tuple ss xs (by simpa [fragP] using hf) h
     | _ => simp [wfTV] at h
   | .map k s, v, hf, h => by
@@ -150,15 +150,15 @@ theorem vok_valueOf : ∀ (s : Schema) (v : TVal), fragP false s = true → wfTV
       simp only [wfTV, List.all_eq_true, Bool.and_eq_true] at h
       have hf' : keyFrag k = true ∧ fragP false s = true := by simpa [fragP] using hf
       have ih := fun kv hx => vok_valueOf s kv.2 hf'.2 (h kv hx).2
-      simp only [valueOf, VOKb, shapeW, Spec.WF.noFloat]
+      simp only [valueOf, VOKb, shapeW, Spec.WF.finiteFloats]
       exact ⟨shapeWm_map _ _ kvs fun kv hx => ⟨validUtf8_keyText k kv.1 hf'.1 (h kv hx).1, (ih kv hx).1⟩,
-        noFloatm_map _ _ kvs fun kv hx => (ih kv hx).2⟩
+        finFloatm_map _ _ kvs fun kv hx => (ih kv hx).2⟩
     | _ => simp [wfTV] at h
   | .struct_ fs d, v, hf, h => by
     cases v with
     | struct_ xs =>
       simp only [wfTV, Bool.and_eq_true, namesOK, List.all_eq_true] at h
-      simp only [valueOf, VOKb, shapeW, Spec.WF.noFloat]
+      simp only [valueOf, VOKb, shapeW, Spec.WF.finiteFloats]
       exact vok_fields fs xs (by simpa [fragP] using hf) h.2 (fun n hn => h.1.1 n hn)
     | _ => simp [wfTV] at h
   | .enum_ vs, v, hf, h => by
@@ -171,27 +171,27 @@ theorem vok_valueOf : ∀ (s : Schema) (v : TVal), fragP false s = true → wfTV
   | .ignored, v, _, h => by simp [wfTV] at h
   | .any, v, hf, _ => by simp [fragP] at hf
 theorem vok_tuple : ∀ (ss : List Schema) (xs : List TVal), fragPList false ss = true → wfTuple ss xs = true →
-    shapeWs (valueTuple ss xs) = true ∧ Spec.WF.noFloats (valueTuple ss xs) = true
-  | [], xs, _, _ => by simp [valueTuple, shapeWs, Spec.WF.noFloats]
+    shapeWs (valueTuple ss xs) = true ∧ Spec.WF.finiteFloatss (valueTuple ss xs) = true
+  | [], xs, _, _ => by simp [valueTuple, shapeWs, Spec.WF.finiteFloatss]
   | s :: ss, [], _, h => by simp [wfTuple] at h
   | s :: ss, x :: xs, hf, h => by
     simp only [wfTuple, Bool.and_eq_true] at h
     simp only [fragPList, Bool.and_eq_true] at hf
     have h1 := vok_valueOf s x hf.1 h.1
     have h2 := vok_tuple ss xs hf.2 h.2
-    simp only [valueTuple, shapeWs, Spec.WF.noFloats, Bool.and_eq_true]
+    simp only [valueTuple, shapeWs, Spec.WF.finiteFloatss, Bool.and_eq_true]
     exact ⟨⟨h1.1, h2.1⟩, h1.2, h2.2⟩
 theorem vok_fields : ∀ (fs : List (Bytes × Schema)) (xs : List TVal), fragPFields false fs = true →
     Model.TypedSer.wfFields fs xs = true → (∀ n ∈ fs.map (·.1), Spec.Utf8.validUtf8 n = true) →
-    shapeWm (valueFields fs xs) = true ∧ Spec.WF.noFloatm (valueFields fs xs) = true
-  | [], xs, _, _, _ => by simp [valueFields, shapeWm, Spec.WF.noFloatm]
+    shapeWm (valueFields fs xs) = true ∧ Spec.WF.finiteFloatsm (valueFields fs xs) = true
+  | [], xs, _, _, _ => by simp [valueFields, shapeWm, Spec.WF.finiteFloatsm]
   | (n, s) :: fs, [], _, h, _ => by simp [Model.TypedSer.wfFields] at h
   | (n, s) :: fs, x :: xs, hf, h, hn => by
     simp only [Model.TypedSer.wfFields, Bool.and_eq_true] at h
     simp only [fragPFields, Bool.and_eq_true] at hf
     have h1 := vok_valueOf s x hf.1 h.1
     have h2 := vok_fields fs xs hf.2 h.2 (fun m hm => hn m (by simp at hm ⊢; exact .inr hm))
-    simp only [valueFields, shapeWm, Spec.WF.noFloatm, Bool.and_eq_true]
+    simp only [valueFields, shapeWm, Spec.WF.finiteFloatsm, Bool.and_eq_true]
     exact ⟨⟨⟨hn n (by simp), h1.1⟩, h2.1⟩, h1.2, h2.2⟩
 theorem vok_variant : ∀ (vs : List (Bytes × VariantShape)) (i : Nat) (p : TVal), fragPVariants false vs = true →
     wfVariant vs i p = true → (∀ n ∈ vs.map (·.1), Spec.Utf8.validUtf8 n = true) → VOKb (valueVariant vs i p)
@@ -208,11 +208,11 @@ theorem vok_variant : ∀ (vs : List (Bytes × VariantShape)) (i : Nat) (p : TVa
     exact vok_variant vs i p hf.2 h (fun m hm => hn m (by simp at hm ⊢; exact .inr hm))
 theorem vok_shape : ∀ (n : Bytes) (sh : VariantShape) (p : TVal), fragPShape false sh = true → wfShape sh p = true →
     Spec.Utf8.validUtf8 n = true → VOKb (valueShape n sh p)
-  | n, .unit, p, _, _, hn => by simp [valueShape, VOKb, shapeW, Spec.WF.noFloat, hn]
+  | n, .unit, p, _, _, hn => by simp [valueShape, VOKb, shapeW, Spec.WF.finiteFloats, hn]
   | n, .newtype s, p, hf, h, hn => by
     simp only [wfShape] at h
     have := vok_valueOf s p (by simpa [fragPShape] using hf) h
-    simp [valueShape, VOKb, shapeW, shapeWm, Spec.WF.noFloat, Spec.WF.noFloatm, hn, this.1, this.2]
+    simp [valueShape, VOKb, shapeW, shapeWm, Spec.WF.finiteFloats, Spec.WF.finiteFloatsm, hn, this.1, this.2]
   | n, .tuple ss, p, hf, h, hn => by
     cases p with
     | seq xs =>
@@ -220,15 +220,43 @@ theorem vok_shape : ∀ (n : Bytes) (sh : VariantShape) (p : TVal), fragPShape f
       have hfl : (!ss.isEmpty && fragPList false ss) = true := by simpa [fragPShape] using hf
       simp only [Bool.and_eq_true] at hfl
       have := vok_tuple ss xs hfl.2 h
-      simp [valueShape, VOKb, shapeW, shapeWm, Spec.WF.noFloat, Spec.WF.noFloatm, hn, this.1, this.2]
+      simp [valueShape, VOKb, shapeW, shapeWm, Spec.WF.finiteFloats, Spec.WF.finiteFloatsm, hn, this.1, this.2]
     | _ => simp [wfShape] at h
   | n, .struct_ fs, p, hf, h, hn => by
     cases p with
     | struct_ xs =>
       simp only [wfShape, Bool.and_eq_true, namesOK, List.all_eq_true] at h
       have := vok_fields fs xs (by simpa [fragPShape] using hf) h.2 (fun m hm => h.1.1 m hm)
-      simp [valueShape, VOKb, shapeW, shapeWm, Spec.WF.noFloat, Spec.WF.noFloatm, hn, this.1, this.2]
+      simp [valueShape, VOKb, shapeW, shapeWm, Spec.WF.finiteFloats, Spec.WF.finiteFloatsm, hn, this.1, this.2]
     | _ => simp [wfShape] at h
+end
+
+mutual
+/-- a printer / parser pair that returns every finite double returns the floats of a value with finite floats -/
+theorem floatsRT_of_finite (c : Spec.Canon.Cfg) (ext : Spec.Program.Ext)
+    (hall : ∀ b, Spec.Program.finite64 b = true → Spec.WF.floatRT c ext b = true) :
+    ∀ v : JV, Spec.WF.finiteFloats v = true → Spec.WF.floatsRT c ext v = true
+  | .null, _ | .bool _, _ | .str _, _ => rfl
+  | .num n, h => by
+    cases n with
+    | float b => simp only [Spec.WF.finiteFloats] at h; simp only [Spec.WF.floatsRT]; exact hall b h
+    | _ => rfl
+  | .arr xs, h => by simp only [Spec.WF.finiteFloats, Spec.WF.floatsRT] at h ⊢; exact floatsRTs_of_finite c ext hall xs h
+  | .obj kvs, h => by simp only [Spec.WF.finiteFloats, Spec.WF.floatsRT] at h ⊢; exact floatsRTm_of_finite c ext hall kvs h
+theorem floatsRTs_of_finite (c : Spec.Canon.Cfg) (ext : Spec.Program.Ext)
+    (hall : ∀ b, Spec.Program.finite64 b = true → Spec.WF.floatRT c ext b = true) :
+    ∀ xs : List JV, Spec.WF.finiteFloatss xs = true → Spec.WF.floatsRTs c ext xs = true
+  | [], _ => rfl
+  | x :: xs, h => by
+    simp only [Spec.WF.finiteFloatss, Spec.WF.floatsRTs, Bool.and_eq_true] at h ⊢
+    exact ⟨floatsRT_of_finite c ext hall x h.1, floatsRTs_of_finite c ext hall xs h.2⟩
+theorem floatsRTm_of_finite (c : Spec.Canon.Cfg) (ext : Spec.Program.Ext)
+    (hall : ∀ b, Spec.Program.finite64 b = true → Spec.WF.floatRT c ext b = true) :
+    ∀ kvs : List (Bytes × JV), Spec.WF.finiteFloatsm kvs = true → Spec.WF.floatsRTm c ext kvs = true
+  | [], _ => rfl
+  | (k, x) :: kvs, h => by
+    simp only [Spec.WF.finiteFloatsm, Spec.WF.floatsRTm, Bool.and_eq_true] at h ⊢
+    exact ⟨floatsRT_of_finite c ext hall x h.1, floatsRTm_of_finite c ext hall kvs h.2⟩
 end
 
 /-! ## the invariant of the typed round trip: the value is the `Value` of a well-formed typed value -/
@@ -402,5 +430,39 @@ theorem closed_RT : Closed RT where
           cases h2
         | _ => simp [wfShape] at hws
     | _ => simp [wfTV] at hw
+
+/-- an integer member is written as an integer: no float under an integer target -/
+theorem rt_int_notFloat (w : IntTy) (v : JV) (h : RT (.int w) v) (b : UInt64) : v ≠ .num (.float b) := by
+  obtain ⟨tv, hw, rfl⟩ := h
+  cases tv <;> simp [wfTV] at hw
+  simp only [valueOf, intJV]
+  split <;> simp
+
+/-- an `f64` member is written as a float: no integer under an `f64` target -/
+theorem rt_f64_range (v : JV) (h : RT .f64 v) : SJ.Proofs.TypedFloat.IntRangeOK v := by
+  obtain ⟨tv, hw, rfl⟩ := h
+  cases tv <;> simp [wfTV] at hw
+  constructor <;> intro _ h <;> simp [valueOf] at h
+
+/-- a struct is written as an object, never as an array -/
+theorem rt_struct_notArr (fs : List (Bytes × Schema)) (dn : Bool) (xs : List JV) : ¬ RT (.struct_ fs dn) (.arr xs) := by
+  rintro ⟨tv, hw, he⟩
+  cases tv <;> simp [wfTV, valueOf] at hw he
+
+/-- every member of the object written for a struct names a field -/
+theorem rt_struct_known (fs : List (Bytes × Schema)) (dn : Bool) (kvs : List (Bytes × JV)) (h : RT (.struct_ fs dn) (.obj kvs)) :
+    ∀ kv ∈ kvs, FromValue.nameIndex (fieldNames fs) kv.1 ≠ none := by
+  obtain ⟨tv, hw, he⟩ := h
+  cases tv with
+  | struct_ ys =>
+    simp only [wfTV, Bool.and_eq_true, namesOK] at hw
+    simp only [valueOf, JV.obj.injEq] at he
+    subst he
+    intro kv hx
+    obtain ⟨j, s', y, h1, _, _⟩ := valueFields_mem fs ys hw.2 kv hx
+    have hnj : FromValue.nameIndex (fieldNames fs) kv.1 = some j :=
+      nameIndex_of_distinct _ j kv.1 hw.1.2 (by simp [fieldNames, h1])
+    rw [hnj]; exact fun h => by cases h
+  | _ => simp [wfTV] at hw
 
 end SJ.Proofs.TypedSer
